@@ -259,4 +259,10 @@ var handComposeDocs = []string{
 	`query Q($v: Int) { f(nn: 1, i: $v) @skip(if: $u) ...F } fragment F on Query { f(nn: $v) @once(zz: $w) }`,
 	`{ a { nope } b { y @nope(x: $v) } u { x } ... on Nope { s } ...G } fragment G on Qery { s }`,
 	`{ e(v: REDD) f(nn: 1, ii: 2) a { xx } } fragment F on A { x }`,
+	// numeric literals no host number can hold (the without-suggestions variants must report them too)
+	`{ num(fl: 1e999) }`, `{ num(id: 99999999999999999999999) }`, `{ num(fls: [1.5, 1e999, 99999999999999999999999]) }`, `{ num(o: {fl: 1e999, id: 99999999999999999999999}) }`,
+	`{ num(fl: 99999999999999999999999) f(nn: 99999999999999999999999) }`, `query($v: Float = 1e999, $w: [Num] = [{fl: 1e999}]) { num(fl: $v) n2: num(o: {fl: $v}) }`,
+	// value faults and variable uses that only occur inside directive arguments
+	`query Q($v: Boolean, $unused: Int) { s @include(if: $v) t: s @skip(if: $nope) u: s @include(if: "yes") }`,
+	`query Q($v: Boolean!) { ...F @include(if: $v) } fragment F on Query { s @skip(if: $v) a { x @include(if: 1) } }`,
 }
